@@ -11,6 +11,7 @@ var (
 	encoding = binary.BigEndian
 
 	errInvalidStringLength    = errors.New("invalid string length")
+	errTooManyHeaders         = errors.New("too many headers")
 	errInvalidArrayLength     = errors.New("invalid array length")
 	errInvalidByteSliceLength = errors.New("invalid byteslice length")
 )
